@@ -126,6 +126,14 @@ class Schema:
             put(a, 'namespace', ns)
             put(a, 'schemaLocation', loc)
             kids.append(E(x + 'import', a))
+        notes = getattr(self, 'import_notes', None)
+        if notes is not None:
+            # an xs:annotation before the first import and / or between the first and the second one (Selector over positions)
+            x_ = self.xs + ':'
+            mk = lambda: E(x_ + 'annotation', {}, [E(x_ + 'documentation', {}, [Text('about the imports')])])
+            first = Opt(mk(), notes.var == notes.options.index('first'))
+            between = Opt(mk(), notes.var == notes.options.index('between'))
+            kids = [first] + kids[:1] + [between] + kids[1:]
         comps = [self._comp(c) for c in self.components]
         nsd = {self.xs: XS}
         nsd.update({k: attr(v) for k, v in self.prefixes.items()})
